@@ -1,7 +1,8 @@
 // pbfproto: translates the two protobuf schema files of the PBF format
 // (osmpbf/internal/osmpbf/fileformat.proto, osmformat.proto) into coq/gen/GenProto.v:
 // per message the field table (number, name, type, label, packed, default) and per enum its values.
-//      usage: pbfproto <repo> <outdir>
+//
+//	usage: pbfproto <repo> <outdir>
 //
 // A small hand parser for the subset of proto2 the two files use: comments, `syntax`, `option`,
 // `package`, `message N { ... }` (nested), `enum N { A = 0; }`,
@@ -17,9 +18,28 @@ import (
 	"strconv"
 	"strings"
 	"unicode"
-
-	"verif/translator/tr"
 )
+
+// emit / coqString: local copies of the two helpers of verif/translator/tr, so that this translator does not
+// depend on the (concurrently edited) shared package building
+type trT struct{}
+
+var tr trT
+
+func (trT) Emit(path string, content []byte) error {
+	old, err := os.ReadFile(path)
+	if err == nil && bytes.Equal(old, content) {
+		return nil
+	}
+	if err := os.MkdirAll(filepath.Dir(path), 0o755); err != nil {
+		return err
+	}
+	return os.WriteFile(path, content, 0o644)
+}
+
+func (trT) CoqString(s string) string {
+	return "\"" + strings.ReplaceAll(s, "\"", "\"\"") + "\""
+}
 
 func fail(f string, a ...interface{}) {
 	fmt.Fprintf(os.Stderr, "translator pbfproto: "+f+"\n", a...)
